@@ -4,6 +4,11 @@ pub fn fmt_format_stub(_args: core::fmt::Arguments<'_>) -> String {
     String::new()
 }
 
+/// anyhow captures a backtrace when it wraps an error (env lookup, unwinder): environment.
+pub fn backtrace_stub() -> std::backtrace::Backtrace {
+    std::backtrace::Backtrace::disabled()
+}
+
 pub fn random_state_stub() -> std::collections::hash_map::RandomState {
     // RandomState is two u64 SipHash keys (environment: no getrandom in the model)
     unsafe { core::mem::transmute::<(u64, u64), std::collections::hash_map::RandomState>((0x0123_4567_89ab_cdef, 0x0fed_cba9_8765_4321)) }
@@ -33,4 +38,32 @@ pub fn same(a: &[u8], b: &[u8]) -> bool {
         i += 1;
     }
     true
+}
+
+/// `decode_message_batch` returns `Vec<Bytes>` on the pinned tree and a `Result` after the
+/// C06 repair; harnesses go through this adapter so that they compile against both.
+pub trait BatchResult {
+    fn into_batch(self) -> Option<Vec<Bytes>>;
+}
+impl BatchResult for Vec<Bytes> {
+    fn into_batch(self) -> Option<Vec<Bytes>> {
+        Some(self)
+    }
+}
+impl<E> BatchResult for Result<Vec<Bytes>, E> {
+    fn into_batch(self) -> Option<Vec<Bytes>> {
+        match self {
+            Ok(v) => Some(v),
+            Err(e) => {
+                core::mem::forget(e);
+                None
+            }
+        }
+    }
+}
+pub fn unwrap_batch<R: BatchResult>(r: R) -> Vec<Bytes> {
+    match r.into_batch() {
+        Some(v) => v,
+        None => panic!("well-formed batch rejected"),
+    }
 }
